@@ -15,7 +15,7 @@ RULE = ("string frames run through the real compute_expanded_multivalue_features
         "distinct = distinct canonical cases")
 THEOREMS = ["C11_appends_firstn", "C11_append_multivalue", "C11_append_subfeatures", "C11_append_combined",
             "C11_append_transform", "C11_append_noise", "C11_compose", "C11_batch", "C11_tokens", "C11_multivalue",
-            "C11_multivalue_names_distinct", "C11_multivalue_cell", "C11_observed_order_admissible", "C11_sub_columns", "C11_sub_one_columns",
+            "C11_multivalue_names_distinct", "C11_multivalue_cell", "C11_sub_columns", "C11_sub_one_columns",
             "C11_sub_one", "C11_sub_two_columns", "C11_sub_two", "C11_target_control", "C11_append_checker_sound",
             "C11_rule_checker_sound", "C11_noise_checker_sound"]
 
@@ -296,11 +296,10 @@ def expr_for(c, r):
         out = frame_lit(cap["names"], cap["cols"]) if cap else "df"
         sample = "(observed_sample %s)" % vlib.strlist(cap["names"]) if cap else "(fun _ x => x)"
         return ("let df := %s in let cfg := %s in let steps := batch_steps (fun x => x) %s (fun _ _ => []) %s "
-                "(order_for %s) cfg in (append_okb df %s, run_steps steps df, trace steps df)" % (
-                    df, cfg_lit(c), T, sample, observed_token_order(c, r), out))
+                "cfg in (append_okb df %s, run_steps steps df, trace steps df)" % (df, cfg_lit(c), T, sample, out))
     out = frame_lit(r["names"], r["cols"])
     if k == "multivalue":
-        model = "multivalue_args id_perm df %s %s" % (vlib.strlit(c["explode"]), vlib.strlit(c["missing"]))
+        model = "multivalue_args df %s %s" % (vlib.strlit(c["explode"]), vlib.strlit(c["missing"]))
     elif k == "sub":
         model = "subfeatures_args df %s" % vlib.strlit(c["mapping"])
     elif k == "noise":
@@ -311,29 +310,34 @@ def expr_for(c, r):
 
 
 def observed_token_order(c, r):
-    """the set-iteration order of the multi-value tokens, read off the frame the implementation built (an oracle of the model)"""
+    """per exploded feature, the order in which the implementation emitted the multi-value columns (read off the recorded frame)"""
     cap = r.get("captured")
     if not cap or c["explode"] == "False":
-        return "[]"
+        return {}
     start = len(c["names"]) + len((r.get("transform_new") or {"names": []})["names"])
     seg = []
     for nm in cap["names"][start:]:
         if not nm.startswith("MULTIEX-"):
             break
         seg.append(nm)
-    table = []
+    table = {}
     for f in c["explode"].split(";"):
         pre = "MULTIEX-" + f + "-"
-        toks = [nm[len(pre):] for nm in seg if nm.startswith(pre) and "-" not in nm[len(pre):]]
-        table.append("(%s, %s)" % (vlib.strlit(f), vlib.strlist(toks)))
-    return "[" + "; ".join(table) + "]"
+        table[f] = [nm[len(pre):] for nm in seg if nm.startswith(pre) and "-" not in nm[len(pre):]]
+    return table
+
+
+def tokens_sorted(c, r):
+    """the code emits the tokens of one feature in sorted order (b8c228d) and the model follows it; the property does not fix
+    the order, so a different order is reported as a note and the order-dependent names are then not compared"""
+    return all(toks == sorted(toks) for toks in observed_token_order(c, r).values())
 
 
 def model_expr(c):
     """for diagnostics only: the appended columns the transcription produces"""
     df = frame_lit(c["names"], columns_of(c))
     if c["kind"] == "multivalue":
-        model = "multivalue_args id_perm df %s %s" % (vlib.strlit(c["explode"]), vlib.strlit(c["missing"]))
+        model = "multivalue_args df %s %s" % (vlib.strlit(c["explode"]), vlib.strlit(c["missing"]))
     elif c["kind"] == "sub":
         model = "subfeatures_args df %s" % vlib.strlit(c["mapping"])
     else:
@@ -350,26 +354,41 @@ def canon_part(col):
     return [ids.setdefault(x, len(ids)) for x in col]
 
 
+MODEL_REJECTS = ("correspondence: the transcription rejects this configuration (None: missing column / malformed mapping / "
+                 "no rows) but the implementation accepts it")
+NONSTR = ("values preserved / indicator values are strings: a cell of an original or rule-derived column is not a str "
+          "(type change hidden by str())")
+NOTES = []
+
+
 def compare_batch(c, r, v):
     """v = (append_ok, model frame option, trace).  Returns (clause, detail) or None."""
     append_ok, model, trace = v
     if model is None or any(t is None for t in trace):
-        return None                                           # configuration the transcription rejects: not compared
+        return (MODEL_REJECTS, "batch_construct = None, compute_batch_ranking returned a summary")
+    bad = [x for x in (r.get("captured") or {}).get("nonstr_columns", [])
+           if not x[1].startswith("CONTROL-") or x[1] == "CONTROL-target"]
+    if bad:
+        return (NONSTR, {"columns": bad[:6]})
     model = decode_frame(model[1])
     mnames = [nm for nm, _ in model]
     # without the recorded frame the orders the property leaves free (token order, sampler order) are unknown, and the
     # names of interactions built on top of them cannot be predicted
-    order_known = bool(r.get("captured")) or c["order"] <= 1
+    order_known = (bool(r.get("captured")) and tokens_sorted(c, r)) or c["order"] <= 1
     if order_known and set(r["summary_names"]) != set(mnames):
         return ("feature names in BatchRankingSummary = original + constructed features",
                 {"only_in_impl": sorted(set(r["summary_names"]) - set(mnames))[:8],
                  "only_in_model": sorted(set(mnames) - set(r["summary_names"]))[:8]})
     cap = r.get("captured")
     if not cap:
-        return None
+        return None                                           # reported by the capture obligation in check()
+    if not tokens_sorted(c, r):
+        NOTES.append("multi-value tokens not emitted in sorted order (regression of b8c228d?): %r" % (observed_token_order(c, r),))
     if not append_ok or not cap["index_ok"] or cap["nrows"] != len(c["rows"]):
         return ("every construction step only appends columns (originals, values and row order preserved; one value per row)",
                 "frame handed to mixed_rank_graph: nrows=%d index_ok=%s append_okb=%s" % (cap["nrows"], cap["index_ok"], append_ok))
+    if not order_known:
+        return None         # interaction names depend on an emission order the property leaves free and the model no longer predicts
     if sorted(cap["names"]) != sorted(mnames):
         return ("constructed feature names", {"impl": cap["names"][:40], "model": mnames[:40]})
     bounds = [len(c["names"])] + [t[1] for t in trace]
@@ -401,7 +420,7 @@ def evaluate_units(cases):
             verdicts[i] = {"fail": None, "impl": r, "raised": True}
             exprs.append("let df := %s in let m := %s in ((true, true), nnew df m)" % (
                 frame_lit(c["names"], columns_of(c)),
-                {"multivalue": "multivalue_args id_perm df %s %s" % (vlib.strlit(c.get("explode", "")), vlib.strlit(c.get("missing", ""))),
+                {"multivalue": "multivalue_args df %s %s" % (vlib.strlit(c.get("explode", "")), vlib.strlit(c.get("missing", ""))),
                  "sub": "subfeatures_args df %s" % vlib.strlit(c.get("mapping", ""))}.get(c["kind"], "Some df")))
             idx.append(i)
             continue
@@ -426,8 +445,14 @@ def evaluate_units(cases):
             append_ok, rule_ok, nmodel = v
             nd = len(c["names"])
             n_new = len(r["names"]) - nd
-            if not r["index_ok"] or r["nrows"] != len(c["rows"]):
-                fail = ("row order preserved: the returned frame keeps the input's rows and RangeIndex",
+            badtypes = [x for x in r.get("nonstr_columns", [])
+                        if x[0] < nd or c["kind"] != "noise" or x[1] == "CONTROL-target"]
+            if nmodel is None and c["kind"] in ("multivalue", "sub"):
+                fail = (MODEL_REJECTS, {"names": r["names"][nd:nd + 8]})
+            elif badtypes:
+                fail = (NONSTR, {"columns": badtypes[:6]})
+            elif not r["index_ok"] or r["nrows"] != len(c["rows"]):
+                fail = ("row order preserved: the returned frame keeps the input's rows and row labels",
                         "nrows=%d (input %d) index_ok=%s" % (r["nrows"], len(c["rows"]), r["index_ok"]))
             elif not append_ok:
                 fail = ("only appends columns: originals and their values preserved, one value per row in every new column",
@@ -439,7 +464,8 @@ def evaluate_units(cases):
                           "noise": "noise controls: expected control columns, one value per row; the target control replicates the label",
                           }.get(c["kind"], "rule")
                 fail = (clause, {"impl_new": list(zip(r["names"][nd:nd + 8], [x[:10] for x in r["cols"][nd:nd + 8]]))})
-        verdicts[i] = {"fail": fail, "impl": r, "coq": v, "n_new": n_new}
+        verdicts[i] = {"fail": fail, "impl": r, "coq": v, "n_new": n_new,
+                       "capture_missing": c["kind"] == "batch" and not r.get("captured")}
     return verdicts
 
 
@@ -471,7 +497,11 @@ def evaluate(cases):
         d["units"].append((u, v))
         d["n_new"] += max(0, v.get("n_new", 0))
         d["raised"] = d["raised"] or bool(v.get("raised"))
-        if v["fail"] and not d["fail"]:
+        d["capture_missing"] = d.get("capture_missing", False) or bool(v.get("capture_missing"))
+        d["both_reject"] = d.get("both_reject", 0) + (1 if v.get("raised") and not v["fail"] else 0)
+        if v["fail"] and u.get("observe_only"):
+            d.setdefault("observations", []).append((u["kind"], v["fail"][0]))
+        elif v["fail"] and not d["fail"]:
             d.update(fail=v["fail"], batch=b, impl=v["impl"], coq=v.get("coq"))
     for d in verdicts:
         d.setdefault("impl", d["units"][-1][1]["impl"])
@@ -498,6 +528,32 @@ def gen_history(rng):
         if g is not gen_batch or all(estimate_columns(u) <= 130 for u in units):
             return {"kind": "history", "units": units}
     return {"kind": "history", "units": [c0]}
+
+
+def gen_index_probe(rng):
+    """a direct constructor call on a frame whose row labels are not 0..n-1 (filtered / shuffled rows).  compute_batch_ranking
+    never builds such a frame; the outcome is recorded per constructor as an observation (never a violation of C11)"""
+    c = rng.choice([gen_multivalue, gen_sub, gen_transform, gen_noise, gen_combined])(rng)
+    n = len(c["rows"])
+    if rng.random() < 0.5:
+        idx = list(range(n))
+        rng.shuffle(idx)
+    else:
+        idx = sorted(rng.sample(range(2 * n + 3), n))
+    return dict(c, index=idx, observe_only=True)
+
+
+def gen_invalid(rng):
+    """configurations the transcription rejects (None): both sides must reject"""
+    if rng.random() < 0.5:
+        c = gen_sub(rng)
+        a, b = rng.sample(c["names"], 2)
+        c["mapping"] = rng.choice([a + "->" + b + "->" + a, a + "<->" + b + "<->" + a, a + b, a + "->nosuchcolumn",
+                                   "nosuchcolumn<->" + b, a + "->" + a, a + "<->" + b + "->" + a, ""])
+    else:
+        c = gen_multivalue(rng)
+        c["explode"] = rng.choice([c["explode"] + ";nosuchcolumn", "nosuchcolumn", ""])
+    return c
 
 
 def shrinks(c, batch=0):
@@ -550,11 +606,17 @@ def check(run, replay):
             cases.append(gen_batch(run.rng, force_noise=True))
         for _ in range(30 if q else 300):
             cases.append(gen_history(run.rng))
+        for _ in range(20 if q else 150):
+            cases.append(gen_index_probe(run.rng))
+        for _ in range(12 if q else 100):
+            cases.append(gen_invalid(run.rng))
     verdicts = evaluate(cases)
 
     hist = {"kind": {}, "rows": {}, "raised": 0, "invalid_config_skipped": 0, "appended_columns": 0, "batch_flags": {},
             "batch_frame_captured": 0, "histories": 0, "history_units": 0}
     failing = []
+    obs_index = {}
+    missing_capture = []
     for c, v in zip(cases, verdicts):
         if c["kind"] == "history":
             hist["histories"] += 1
@@ -574,9 +636,32 @@ def check(run, replay):
                 if w["impl"].get("captured"):
                     hist["batch_frame_captured"] += 1
         hist["appended_columns"] += max(0, v.get("n_new", 0))
+        hist["both_sides_reject_invalid_configuration"] = hist.get("both_sides_reject_invalid_configuration", 0) + v.get("both_reject", 0)
+        if c.get("observe_only"):
+            key = c["kind"]
+            o = obs_index.setdefault(key, {"probes": 0, "aligned_and_rule_ok": 0, "outcomes": {}})
+            o["probes"] += 1
+            if v.get("observations"):
+                for _, clause in v["observations"]:
+                    o["outcomes"][clause[:90]] = o["outcomes"].get(clause[:90], 0) + 1
+            elif v["impl"].get("ok"):
+                o["aligned_and_rule_ok"] += 1
+            else:
+                o["outcomes"]["raises"] = o["outcomes"].get("raises", 0) + 1
+        if v.get("capture_missing"):
+            missing_capture.append(c)
         run.count_case(c, v.get("n_new", 0) > 0)
         if v["fail"]:
             failing.append((c, v))
+    run.oblige("capture: the frame handed to mixed_rank_graph was recorded for every batch case", not missing_capture,
+               "%d batch cases without a recorded frame" % len(missing_capture))
+    if missing_capture:
+        run.violation("broken-obligation", "capture:mixed_rank_graph frame (observation point of the batch family is gone)",
+                      case=None, found_input=False, extra={"cases_without_capture": len(missing_capture)})
+    run.cov["non_default_row_index_observations"] = obs_index
+    if NOTES:
+        run.notes.extend(sorted(set(NOTES))[:5])
+        run.cov["multivalue_order_notes"] = len(NOTES)
     run.oblige("correspondence:constructors and compute_batch_ranking against the transcription (Coq checkers)",
                not failing, "%d of %d cases rejected" % (len(failing), len(cases)))
 
